@@ -210,6 +210,7 @@ func (r *pointRun[P]) affineXY(p pt) (fe, fe) {
 type special struct {
 	label string
 	p     pt
+	half  *pt // a point whose double is p: a second door when the affine constructor refuses p
 }
 
 // specials: elements outside the window that the property names (zero coordinates, small / composite order).
@@ -218,11 +219,11 @@ func (r *pointRun[P]) specials() []special {
 	var out []special
 	if g.w != nil {
 		if p, ok := g.w.lift(f.zero()); ok { // points with x = 0
-			out = append(out, special{"x0", p}, special{"x0neg", g.w.neg(p)})
+			out = append(out, special{label: "x0", p: p}, special{label: "x0neg", p: g.w.neg(p)})
 		}
 		for i := int64(1); i < 200 && len(out) < 6; i++ { // small abscissas
 			if p, ok := g.w.lift(f.small(i)); ok {
-				out = append(out, special{"smallx", p})
+				out = append(out, special{label: "smallx", p: p})
 			}
 		}
 		if g.cof.Cmp(one) != 0 {
@@ -233,17 +234,20 @@ func (r *pointRun[P]) specials() []special {
 					continue
 				}
 				n++
-				out = append(out, special{"composite", p})
+				out = append(out, special{label: "composite", p: p})
 				if t := mulBig(g.w, g.order, p); !t.inf {
-					out = append(out, special{"torsion", t})
+					out = append(out, special{label: "torsion", p: t})
 				}
-				out = append(out, special{"clearcof", mulBig(g.w, g.cof, p)})
+				out = append(out, special{label: "clearcof", p: mulBig(g.w, g.cof, p)})
 			}
 		}
 	} else {
-		out = append(out, special{"T2", pt{x: f.small(0), y: f.small(-1)}})
+		t2 := special{label: "T2", p: pt{x: f.small(0), y: f.small(-1)}}
 		if p, ok := g.e.liftY(f.small(0)); ok { // y = 0: order four
-			out = append(out, special{"T4", p}, special{"T4neg", g.e.neg(p)})
+			t2.half = &p
+			out = append(out, t2, special{label: "T4", p: p}, special{label: "T4neg", p: g.e.neg(p)})
+		} else {
+			out = append(out, t2)
 		}
 		for i := int64(2); i < 200; i++ {
 			p, ok := g.e.liftY(f.small(i))
@@ -252,9 +256,9 @@ func (r *pointRun[P]) specials() []special {
 			}
 			t := mulBig(g.e, g.order, p) // pure torsion component
 			if ord8 := !g.e.isIdentity(mulBig(g.e, big.NewInt(4), t)); ord8 {
-				out = append(out, special{"T8", t}, special{"T8x3", mulBig(g.e, big.NewInt(3), t)},
-					special{"G+T8", g.e.add(g.G, t)}, special{"G+T2", g.e.add(g.G, pt{x: f.small(0), y: f.small(-1)})},
-					special{"composite", p}, special{"smally", mulBig(g.e, bigEight, p)})
+				out = append(out, special{label: "T8", p: t}, special{label: "T8x3", p: mulBig(g.e, big.NewInt(3), t)},
+					special{label: "G+T8", p: g.e.add(g.G, t)}, special{label: "G+T2", p: g.e.add(g.G, pt{x: f.small(0), y: f.small(-1)})},
+					special{label: "composite", p: p}, special{label: "smally", p: mulBig(g.e, bigEight, p)})
 				break
 			}
 		}
@@ -271,6 +275,9 @@ func (r *pointRun[P]) run() {
 	g := r.g
 	W := r.cfg.win
 	decs := r.decoders()
+	g.idEnc = map[string][]byte{}
+	guard(func() { g.idEnc[r.a.comp.rule] = r.a.toCompressed(r.a.id()) })
+	guard(func() { g.idEnc[r.a.uncomp.rule] = r.a.toUncompressed(r.a.id()) })
 	r.w.Emit(map[string]any{"a": "curve", "curve": r.a.name, "promise": g.promise(), "win": W,
 		"apis": func() []string { o := []string{}; for _, d := range decs { o = append(o, d.api) }; return append(o, "FromAffine") }()})
 
@@ -300,6 +307,16 @@ func (r *pointRun[P]) run() {
 		var err error
 		msg := guard(func() { el, err = r.a.fromAffine(x, y) })
 		ok := msg == "" && err == nil
+		if !ok && s.half != nil { // second door: the group law
+			hx, hy := r.affineXY(*s.half)
+			msg = guard(func() {
+				var h P
+				if h, err = r.a.fromAffine(hx, hy); err == nil {
+					el = r.a.add(h, h)
+				}
+			})
+			ok = msg == "" && err == nil && r.project(el).str == ptStr(g.cm(), s.p)
+		}
 		elems = append(elems, elem{s.label, 0, s.p, el, ok})
 		if !ok {
 			r.w.Emit(map[string]any{"a": "build", "curve": r.a.name, "label": s.label, "ok": false, "panic": msg != "", "err": tr.ErrChain(err)})
@@ -385,7 +402,7 @@ func (r *pointRun[P]) run() {
 			}
 			v := classify(g, d.fm, c.b)
 			ev := map[string]any{"a": "dec", "curve": r.a.name, "api": d.api, "fmt": d.fm.rule, "cls": c.cls, "det": c.det,
-				"promise": g.promise(), "len": v.Len, "L": v.L, "fl": flagRec(d.fm.rule, v.fl), "idform": v.idform, "red": v.red,
+				"promise": g.promise(), "len": v.Len, "L": v.L, "idenc": v.idenc, "fl": flagRec(d.fm.rule, v.fl), "idform": v.idform, "red": v.red,
 				"onc": v.onc, "insub": v.insub, "small": v.small, "canon": v.canon, "exps": nz(v.exps)}
 			if len(c.b) <= 200 {
 				ev["hex"] = fmt.Sprintf("%x", c.b)
@@ -491,7 +508,7 @@ func (r *pointRun[P]) affineCases(rng *rand.Rand) {
 		}
 		_ = isID
 		ev := map[string]any{"a": "dec", "curve": r.a.name, "api": "FromAffine", "fmt": "affine", "cls": c.cls, "det": "",
-			"promise": g.promise(), "len": 2, "L": 2, "fl": map[string]int{"none": 0}, "idform": "no", "red": true,
+			"promise": g.promise(), "len": 2, "L": 2, "idenc": false, "fl": map[string]int{"none": 0}, "idform": "no", "red": true,
 			"onc": onc, "insub": insub, "small": small, "canon": onc, "exps": exps}
 		var back P
 		var err error
@@ -518,7 +535,7 @@ func (r *pointRun[P]) affineCases(rng *rand.Rand) {
 				xexps = append(xexps, tokElem(g.kind(), ptStr(g.cm(), p)))
 			}
 			ev := map[string]any{"a": "dec", "curve": r.a.name, "api": "FromAffineX", "fmt": "affinex", "cls": c.cls, "det": fmt.Sprint(odd),
-				"promise": g.promise(), "len": 2, "L": 2, "fl": map[string]int{"none": 0}, "idform": "no", "red": true,
+				"promise": g.promise(), "len": 2, "L": 2, "idenc": false, "fl": map[string]int{"none": 0}, "idform": "no", "red": true,
 				"onc": xonc, "insub": xin, "small": xsmall, "canon": xonc, "exps": xexps}
 			msg := guard(func() { back, err = r.a.fromAffineX(c.x, odd) })
 			ev["panic"], ev["acc"] = msg != "", msg == "" && err == nil
